@@ -136,14 +136,14 @@ RESERVED = ['table', 'ref', 'note', 'enum', 'as', 'indexes', 'null', 'true', 'pk
 
 def api_names(K, which):
     """API-built database whose names need quoting or are reserved words; which selects the named element kind"""
-    args = [('rw', IntRange(0, len(RESERVED))), ('schema', 'bool')] + hole_args('n', K, QNAME)
+    args = [('rw', IntRange(0, len(RESERVED))), ('schema', IntRange(0, 3))] + hole_args('n', K, QNAME)
 
     def build(a):
         from pydbml import Database
         from pydbml.classes import Table, Column, Enum as E, EnumItem, Reference, TableGroup, Project, StickyNote, Index
         name = RESERVED[a['rw']] if a['rw'] < len(RESERVED) else text_of(a, 'n', K)
         db = Database()
-        sch = 'my schema' if a['schema'] else 'public'
+        sch = ['public', 'my schema', 'PUBLIC', 'pub'][a['schema']]     # incl. look-alikes of the default schema
         en = E('status' if which != 'enum' else name, [EnumItem('on' if which != 'item' else name), EnumItem('off')], schema=sch)
         t1 = Table('users', schema=sch, alias='U' if which != 'alias' else None,
                    columns=[Column('id' if which != 'column' else name, 'int', pk=True), Column('st', en), Column('k2', 'int')])
@@ -237,7 +237,7 @@ def api_column(dk, K, fix=None):
         from pydbml.classes import Table, Column, Expression
         from oracle.norm import norm
         txt = text_of(a, 't', K)
-        dv = {'none': None, 'int': 42, 'float': 2.5, 'true': True, 'str': txt, 'expr': Expression('f(' + txt.replace('`', '') + ')'),
+        dv = {'none': None, 'int': 42, 'float': 2.5, 'true': True, 'str': txt, 'expr': Expression(txt.replace('`', '') + 'f()' + txt.replace('`', '')),
               'NULL': 'NULL', 'zero': 0, 'false': False, 'empty': ''}[dk]
         c = Column('c', 'varchar(10)', pk=a['pk'], unique=a['un'], not_null=a['nn'], autoinc=a['ai'], default=dv,
                    note=norm(txt) if a['note'] else None)
